@@ -38,6 +38,7 @@ func SplitBraces(word *Word) bool {
 	acc := top
 	var cur *BraceExp
 	var open []*BraceExp
+	found := false // whether any BraceExp node was added
 
 	pop := func() *BraceExp {
 		old := cur
@@ -130,6 +131,7 @@ func SplitBraces(word *Word) bool {
 				}
 				if !br.Sequence {
 					acc.Parts = append(acc.Parts, br)
+					found = true
 					break
 				}
 				var chars [2]bool
@@ -162,6 +164,7 @@ func SplitBraces(word *Word) bool {
 				}
 				if !broken {
 					acc.Parts = append(acc.Parts, br)
+					found = true
 					break
 				}
 				// return broken {x..y[..incr]} to a non-brace
@@ -200,6 +203,10 @@ func SplitBraces(word *Word) bool {
 			}
 			acc.Parts = append(acc.Parts, elem.Parts...)
 		}
+	}
+	if !found {
+		// Only malformed brace expansions; leave the word untouched.
+		return false
 	}
 	*word = *top
 	return true
